@@ -200,6 +200,7 @@ def run(prop, tier, replay=None, nproc=None, do_build=True):
             v = group[0]
             if recheck is not None:
                 # same case must fail the same way twice in a fresh worker
+                alts = []
                 for attempt in range(2):
                     if getattr(mod, "NEEDS_WORKER", True):
                         rw = pool.Worker(**wkwargs)
@@ -214,10 +215,37 @@ def run(prop, tier, replay=None, nproc=None, do_build=True):
                     # a recheck may return one violation or a list (a case can
                     # violate several clauses of a property at once)
                     v2s = [] if v2 is None else (v2 if isinstance(v2, list) else [v2])
-                    if not any(x["sig"] == sig for x in v2s):
+                    if any(x["sig"] == sig for x in v2s):
+                        alts.append(None)
+                    elif v2s:
+                        # the case violates the property on a fresh machine too, but in another way
+                        # than in the sweep (what the sweep's machine had executed before matters):
+                        # the fresh-machine observation is the one reported
+                        alts.append(v2s[0])
+                    else:
                         print("MACHINERY: violation did not replay deterministically: sig=%r replay=%r"
                               % (sig, [x["sig"] for x in v2s]))
                         return EXIT_MACHINERY
+                if alts and alts[0] is not None:
+                    if alts[1] is None or alts[1]["sig"] != alts[0]["sig"]:
+                        print("MACHINERY: violation did not replay deterministically: sig=%r replays=%r"
+                              % (sig, [a and a["sig"] for a in alts]))
+                        return EXIT_MACHINERY
+                    v = dict(alts[0])
+                    v.setdefault("case", group[0]["case"])
+                    v["seen_in_sweep_as"] = sig
+                    sig = v["sig"]
+                    k = match_known(known, sig)
+                    if k is not None:
+                        known_hits.setdefault(k["id"], [k, 0])
+                        known_hits[k["id"]][1] += len(group)
+                        continue
+                    if any(sig == s0 for s0, _, _ in new_viol_paths):
+                        continue
+                elif alts and alts[1] is not None:
+                    print("MACHINERY: violation did not replay deterministically: sig=%r replays=%r"
+                          % (sig, [a and a["sig"] for a in alts]))
+                    return EXIT_MACHINERY
             path = write_replay(prop, v, getattr(mod, "ENGINE", "PEX"), tier)
             new_viol_paths.append((sig, path, len(group)))
     finally:
